@@ -374,7 +374,7 @@ def validate(res, obs, name):
     res.add(libraries_validated_by_tlc=counts["libs"], bindings_validated_by_tlc=counts["bindings"], trace_states=r["distinct"])
 
 
-def replay(res, types, libs, name, counts):
+def replay_libs(res, types, libs, name, counts):
     b = Batch(res, types, libs, name).run()
     validate(res, b.obs, name)
     for k, v in b.counts.items():
@@ -403,14 +403,14 @@ def run(res, tier):
         total += len(libs)
         merged = merge(libs, chunk)
         tag = cfg[len("Gen_Statics_"):-4]
-        replay(res, types, merged, tag, counts)
+        replay_libs(res, types, merged, tag, counts)
         f0 = merged[0]["fns"][0]
         res.sample_case({"sweep": tag, "behaviours": len(libs), "libraries": len(merged), "example": f0["cname"],
                          "predicted": {k: f0["pred"].get(k) for k in ("binding", "ident", "link", "wrapper", "sig", "code")}}, cap=8)
     nsim = 300 if thorough else 30
     types, libs = generate(res, "Gen_Statics_sim_t.cfg" if thorough else "Gen_Statics_sim_q.cfg", simulate=nsim, seed=C.seed(), name="sim")
     total += len(libs)
-    replay(res, types, libs, "sim", counts)
+    replay_libs(res, types, libs, "sim", counts)
     res.sample_case({"simulated_libraries": len(libs), "example_options": libs[0]["opt"],
                      "example_functions": [f["cname"] for f in libs[0]["fns"][:4]]}, cap=9)
     res.add(traces_validated_against_impl=counts.get("libraries", 0), behaviours_generated=total, **counts)
